@@ -621,6 +621,27 @@ impl GraphEngine {
             }
         }
 
+        // Label sets that differ from the single label stored in the node table are carried
+        // over into the rewritten log (they exist nowhere else).
+        {
+            vlock!("idmap", self.idmap);
+            let idmap = self.idmap.lock().unwrap();
+            let stored = idmap.get_i2e_snapshot();
+            for (node, labels) in idmap.get_i2l_snapshot().into_iter().enumerate() {
+                let node = node as InternalNodeId;
+                let first = stored[node as usize].label_id;
+                if !labels.contains(&first) {
+                    ops.push(WalRecord::RemoveNodeLabel {
+                        node,
+                        label_id: first,
+                    });
+                }
+                for label_id in labels.into_iter().filter(|l| *l != first) {
+                    ops.push(WalRecord::AddNodeLabel { node, label_id });
+                }
+            }
+        }
+
         let (properties_root, stats_root) =
             load_properties_and_stats_roots(&self.properties_root, &self.stats_root);
         ops.push(WalRecord::ManifestSwitch {
@@ -1212,6 +1233,19 @@ fn replay_graph_transactions(
 ) -> Result<()> {
     for tx in committed {
         if tx.txid <= checkpoint_txid {
+            // The node table stores only a node's first label; every other label change lives
+            // in the log alone, so it must be replayed even for checkpointed transactions.
+            for op in tx.ops {
+                match op {
+                    WalRecord::AddNodeLabel { node, label_id } => {
+                        idmap.apply_add_label(pager, node, label_id)?;
+                    }
+                    WalRecord::RemoveNodeLabel { node, label_id } => {
+                        idmap.apply_remove_label(pager, node, label_id)?;
+                    }
+                    _ => {}
+                }
+            }
             continue;
         }
 
